@@ -3,7 +3,7 @@
    (code, data) pair that can be queried).  Oracles for C16 (skippable blocks do not matter, both parts
    applied), C01 (every accepted block is keyed by the CID recomputed from its bytes) and the error
    contract of C18. *)
-From BS Require Import Bytes Varint Cid Prefix Hasher Proto Incoming Incoming_proofs.
+From BS Require Export Bytes Varint Cid Prefix Hasher Proto Incoming Incoming_proofs.
 Open Scope N_scope.
 
 Inductive iout :=
